@@ -34,6 +34,10 @@ def _transform(root: str, mode: str) -> int:
                 tree = stress_refactor.RetVar().visit(tree)
             elif mode == "shuffle":
                 tree = stress_refactor.shuffle(tree)
+            elif mode == "invert":
+                tree = stress_refactor.Invert().visit(tree)
+            elif mode == "kw":
+                tree = stress_refactor.Keywords(tree).visit(tree)
             out = ast.unparse(ast.fix_missing_locations(tree))
             compile(out, p, "exec")
             open(p, "w").write(out)
@@ -41,7 +45,7 @@ def _transform(root: str, mode: str) -> int:
     return n
 
 
-def run_stress(prop: str, repo: str, modes=("alpha", "nest", "retvar", "shuffle")):
+def run_stress(prop: str, repo: str, modes=("alpha", "nest", "retvar", "shuffle", "invert", "kw")):
     from run import COPY  # noqa: F401
     results = []
     base = subprocess.run([os.path.join(VERIF, "check"), prop, "--repo", repo, "--no-evidence", "--replay-dir", tempfile.mkdtemp(prefix="pq-r-")],
